@@ -5,35 +5,42 @@ SPEC = {
     "streams": [
         # K + S for the modelled hand-written decoders: real Go function vs Verif.Decode.Cases.run_case
         {"name": "decode", "cmd": "decode",
-         "args": {"quick": ["-mode", "model", "-cases", "900"], "thorough": ["-mode", "model", "-cases", "30000"]},
+         "args": {"quick": ["-mode", "model", "-cases", "700"], "thorough": ["-mode", "model", "-cases", "30000"]},
          "search_args": ["-mode", "model", "-cases", "6000"]},
         # S only: SEARCH, NOT PROOF.  No model, no correspondence cases; panic / > 2 s / > 256 MiB per call.
         {"name": "search", "cmd": "decode",
-         "args": {"quick": ["-mode", "search", "-cases", "16000"], "thorough": ["-mode", "search", "-cases", "1600000"]},
-         "search_args": ["-mode", "search", "-cases", "160000"]},
+         "args": {"quick": ["-mode", "search", "-cases", "28000"], "thorough": ["-mode", "search", "-cases", "2800000"]},
+         "search_args": ["-mode", "search", "-cases", "280000"]},
+        # S only: CheckTx / DeliverTx of a live multiplexer (muxdrv), SEARCH, NOT PROOF.
+        {"name": "mux", "cmd": "decode",
+         "args": {"quick": ["-mode", "mux", "-cases", "3000"], "thorough": ["-mode", "mux", "-cases", "120000"]},
+         "search_args": ["-mode", "mux", "-cases", "20000"]},
+        # S only, thorough tier: the known unrecoverable stack overflow, in a child process with a 64 MiB stack limit.
+        {"name": "rhpstack", "cmd": "decode",
+         "args": {"quick": ["-mode", "rhpstack", "-cases", "0"], "thorough": ["-mode", "rhpstack", "-cases", "1"]}},
     ],
     "trusted_base": [
         "Coq 8.16.1 kernel (coqc; coqchk in the thorough tier); no native_compute",
-        "harness/cmd/gen decodeconsts (DepthSize, ValueLengthSize, hash.Size, node prefixes, the empty hash from the imported packages; maxProofDepth, proofEntryFull/Hash, Min/LatestProofVersion read with go/ast from syncer/proof.go)",
-        "coq/Decode/GoSlice.v as the semantics of Go slice expressions, indexing, encoding/binary little-endian reads, make and copy (slice is stricter than Go: high > len is Panic even when <= cap)",
-        "harness/cmd/gen quoteconsts (quote.go layout constants with go/ast; TEE types, certification data types, QE vendor id, TdAttributeReserved from the imported pcs package)",
+        "harness/cmd/gen decodeconsts / quoteconsts / miscconsts (layout constants from the imported packages and, for package-private ones, go/ast: node prefixes, maxProofDepth, proof entry kinds, quote.go and ias/quote.go lengths, namespace flag mask, codec maxMessageSize, checkpoint v1ProofsVersion, the strict CBOR options of cbor.go:40-48 and the library's default MaxNestedLevels)",
+        "coq/Decode/GoSlice.v as the semantics of Go slice expressions, indexing, encoding/binary reads, make and copy (slice is stricter than Go: high > len is Panic even when <= cap)",
         "harness/cmd/decode + verif-tagged go/storage/mkvs/syncer/export_verif.go (VerifWalk: the package-private verifyProof) and go/common/sgx/pcs/export_verif_c16.go (read-only accessors VerifQE, VerifReportBody); error values mapped to classes by errors.Is and message prefix",
         "vm_compute evaluation of Verif.Decode.Cases.run_case on the recorded inputs (no extraction)",
         "Go int is 64 bit (sums of positions and declared lengths < 2^33 do not wrap)",
-        "PCS quote: the PEM/X.509 parse of a PCK certificate chain inside a quote is an oracle input of the model (observed accept/reject), not modelled",
-        "NOT modelled, search only: fxamacker/cbor (through go/common/cbor), encoding/json, crypto/x509 + PEM, protobuf, snappy and every type decoded through them (transactions, commitments, proposals, node/entity/runtime descriptors, syncer.Proof envelope, write logs, checkpoint chunks, PCS quotes and collateral, IAS AVR)",
-        "NOT covered at all: runtime host protocol frames (go/runtime/host/protocol/connection.go), CheckTx/DeliverTx of a live multiplexer",
+        "oracle inputs of the model (observed on the implementation, not modelled): PEM/X.509 parse of a PCK chain inside a quote; the snappy+CBOR stream decoder events of a checkpoint chunk",
+        "the CBOR recogniser is a SPECIFICATION tied to fxamacker/cbor v2.4.0 only by the correspondence stream (DecMode.Valid with a mirror of decOptions; cbor.Unmarshal accepts => recogniser accepts); the library is not verified",
+        "NOT modelled, search only: fxamacker/cbor value building (UTF-8, duplicate keys, key typing), encoding/json, crypto/x509 + PEM, protobuf, snappy and every type decoded through them; the consensus applications behind CheckTx/DeliverTx; the runtime-host connection state machine; the stateless client's provider-input verification",
     ],
     "assumptions": [
-        "the context passed to the proof verifier is not cancelled (ctx.Err() == nil)",
+        "the context passed to the proof verifier / chunk restorer is not cancelled (ctx.Err() == nil)",
         "decoders are called on a fresh receiver (InternalNode.Left/Right nil before SizedUnmarshalBinary), as at every call site",
         "node hashes (UpdateHash) and the final root-hash comparison of verifyProofOpts (proof.go:328-340) are outside the model: hashing does not influence the decoders' control flow",
         "error paths compared by class (sentinel error + wrapping prefix), not by message text",
+        "KeyFormat.Decode: value pointers have the types of the layout (checkSize / unsupported-type panics are programmer errors independent of the input); callers guarantee a non-empty key that is at least Size() long when the prefix matches (proved necessary and sufficient: keyformat_decode_panics_iff)",
     ],
 }
 
 MANIFEST = {
-    "technique": "Coq proof (totality, boundedness and bounded recursion of a statement-by-statement port of the hand-written binary decoders over an explicit-panic model of Go slices) with differential correspondence check against the real decoders; mutation-based search (no model) for the entry points that go through third-party decoders",
-    "level_text": "PROOF covers the hand-written binary decoders only: Depth.UnmarshalBinary, Key.SizedUnmarshalBinary, LeafNode/InternalNode.SizedUnmarshalBinary (full and compact forms), node.UnmarshalBinary, the Merkle proof verifier walk (verifyProof / verifyProofOpts up to the root-hash comparison) and the PCS quote binary layout (Quote.UnmarshalBinaryWithTrailing, header v3/v4, SGX/TDX report bodies, TdAttributes, QuoteSignatureECDSA_P256 incl. the v4 certification-data tuple, CertificationData_QEReport, PPID data; the nested PEM/X.509 certificate chain parse is an oracle input). For EVERY byte string / entry list the ported decoders return Ok or Err and never fail a bounds check (decode_*_total, decode_quote_total, verify_walk_total, verify_opts_total), consume at most the input and build values no larger than the input (decode_*_bounded), request through make() at most the input length on every path including error paths (decode_alloc_bounded: declared lengths are checked before allocation), round-trip the encoders on well-formed nodes (decode_encode_roundtrip_*), and the verifier recursion nests at most maxProofDepth+2 frames and builds one pointer per consumed entry (verify_depth_bounded, verify_walk_bounded, verify_opts_consumes_all). The port is tied to the code by running the real Go functions and the model (vm_compute) on the same valid encodings, length-field mutants, truncations and random bytes and comparing Ok/Err class, decoded value and consumed length. EVERYTHING ELSE in the property (CBOR transactions, executor commitments and proposals, node/entity/runtime descriptors, the syncer.Proof envelope, write logs, checkpoint chunk restore, PCS quote bundles and their X.509 chains, TCB/QE-identity JSON, IAS AVR and AVR bundles) is SEARCH, NOT PROOF: the same mutation engine applied to valid seeds of each exported entry point under recover with a 2 s / 256 MiB budget per call; third-party CBOR/JSON/X.509/protobuf/snappy decoders are not modelled. Runtime host protocol frames and CheckTx/DeliverTx of a live multiplexer are not exercised.",
-    "level_note": "Trusted: Coq kernel; GoSlice.v as the semantics of Go slicing/indexing/encoding-binary/make/copy; the constant generator; the harness, its error-class mapping and the verif-tagged VerifWalk hook. The search stream gives no guarantee beyond the inputs it ran.",
+    "technique": "Coq proof (totality, boundedness and bounded recursion of statement-by-statement ports of the hand-written binary decoders over an explicit-panic model of Go slices; a total linear-time recogniser as specification of the strict CBOR profile) with differential correspondence check against the real decoders; mutation-based search (no model) for everything that goes through third-party decoders or the consensus applications",
+    "level_text": "PROOF covers the hand-written binary decoders only: Depth.UnmarshalBinary, Key.SizedUnmarshalBinary, LeafNode/InternalNode.SizedUnmarshalBinary (full and compact forms), node.UnmarshalBinary, the Merkle proof verifier walk (verifyProof / verifyProofOpts up to the root-hash comparison), the checkpoint restoreChunk loop around the (unmodelled) snappy/CBOR stream, the PCS quote binary layout (Quote.UnmarshalBinaryWithTrailing, header v3/v4, SGX/TDX report bodies, TdAttributes, QuoteSignatureECDSA_P256 incl. the v4 certification-data tuple, CertificationData_QEReport, PPID data; the nested PEM/X.509 chain parse is an oracle input), the IAS quote body/report, keyformat.KeyFormat.Decode and the fixed-size UnmarshalBinary helpers (hash, namespace, address, public key, signature, typed hash, MRENCLAVE/MRSIGNER, pre-hashed, artifact kind). For EVERY byte string / entry list / event list the ported decoders return Ok or Err and never fail a bounds check (decode_*_total, decode_quote_total, decode_ias_quote_total, fixed_unmarshal_total, verify_walk_total, verify_opts_total, restore_chunk_total), consume at most the input, build values no larger than the input and request through make() at most the input length on every path (decode_*_bounded, decode_alloc_bounded), round-trip the encoders on well-formed nodes (decode_encode_roundtrip_*), and the verifier recursion nests at most maxProofDepth+2 frames with one pointer per consumed entry (verify_depth_bounded, verify_walk_bounded, verify_opts_consumes_all). KeyFormat.Decode is NOT total and the theorem says exactly when it panics (keyformat_decode_panics_iff: empty key, or matching prefix with a key shorter than the format's size; keyformat_decode_total_refuted gives the witness); its callers feed it keys obtained by prefix iteration over the local database. The strict CBOR profile (definite lengths, no tags, nesting <= 32, array/map sizes <= 10^7, regenerated from cbor.go:40-48) is captured by a recogniser proved total with linear fuel and bounded depth (cbor_recognizer_total, cbor_recognizer_bounded); it is a SPECIFICATION: the correspondence stream checks that it agrees with the library's validity pass and that whatever cbor.Unmarshal accepts the recogniser accepts, the library itself is not verified. The ports are tied to the code by running the real Go functions and the model (vm_compute) on the same valid encodings, length-field mutants, truncations (incl. every prefix of small encodings) and random bytes and comparing Ok/Err class, decoded value and consumed length. EVERYTHING ELSE in the property is SEARCH, NOT PROOF (same mutation engine, plus JSON-structure-aware and CBOR-structure-aware mutators, under recover with a 2 s / 256 MiB budget per call): CBOR transactions, executor commitments and proposals, node/entity/runtime descriptors, the syncer.Proof envelope, write logs, checkpoint chunk restore, PCS quote bundles and their X.509 chains, TCB/QE-identity JSON, IAS AVR and AVR bundles, runtime-host protocol frames (message codec and the guest/host connection state machine over net.Pipe), the stateless client's verification of provider-supplied Meta bytes (blocks, results, validators, parameters, transactions and proofs), and CheckTx / DeliverTx of a live multiplexer with all applications (byte-mutated, truncated, oversized and correctly re-signed transactions with mutated bodies for 33 methods, with a health probe after garbage blocks and a goroutine-growth probe).",
+    "level_note": "Trusted: Coq kernel; GoSlice.v as the semantics of Go slicing/indexing/encoding-binary/make/copy; the constant generators; the harness, its error-class mapping, its oracle inputs (PEM outcome, stream decoder events) and the verif-tagged hooks. The search streams give no guarantee beyond the inputs they ran; findings of the search streams are reported under stable keys (see known_findings.json).",
 }
